@@ -91,7 +91,18 @@ theorem evalRT_eq_narrow_evalR :
     simp only [evalRT, evalR]
     rw [evalRT_eq_narrow_evalR e ⟨b, m, a + 1⟩ f h, elemArr_narrow hF]
   | .split _ true _, _, _, h => by simp [HasTyR] at h
-  | .merge _ _ _, _, _, h => by simp [HasTyR] at h
+  | .merge c false e, t, f, h => by
+    obtain ⟨b, m, a⟩ := t
+    simp only [HasTyR] at h
+    cases a with
+    | zero => exact absurd rfl h.1
+    | succ n =>
+      simp only [evalRT, evalR, Nat.add_sub_cancel, narrow_arr hF, List.map_map]
+      congr 1
+      apply List.map_congr_left
+      intro ix _
+      exact evalRT_eq_narrow_evalR e ⟨b, m, n⟩ (fset f c ix) h.2.2
+  | .merge _ true _, _, _, h => by simp [HasTyR] at h
   | .disabled d v, t, f, h => by
     simp only [HasTyR] at h
     simp only [evalRT, evalR]
